@@ -1,6 +1,7 @@
 //! wwcheck <PROPERTY> <quick|thorough> [--replay <file>]
 #![allow(clippy::too_many_arguments)]
 
+mod adversary;
 mod curve;
 mod mon;
 mod rng;
